@@ -140,3 +140,32 @@ Proof.
   - intros r s' Hr. exact (connections_independent picks cs j p s r s' Hj Hr).
 Qed.
 Print Assumptions C18_connections_independent.
+
+(* handle() with the call of the wrapped handler as an explicit step, for every
+   stream, schedule and EVERY behaviour of the wrapped handler [h] (returning or
+   raising any exception, after reading any part of the payload): the coroutine
+   does after the parser exactly [after_parse], and therefore ([called_once])
+   the wrapped handler is called exactly once - with the address the parser
+   produced (the invalid address (None, None) for a bad header), on the socket
+   exactly as the parser left it - and handle() ends the way that one call
+   ended: it returns if the handler returned, and the handler's exception
+   propagates unchanged; for a LOCAL header there is no call and handle()
+   returns. *)
+Theorem C18_handler_called_once : forall pton6 ntop6 h s,
+  (run_h (p_handle_v1 pton6 ntop6) h s = after_parse h (handle_v1 pton6 ntop6 s) /\
+   called_once h (handle_v1 pton6 ntop6 s) (run_h (p_handle_v1 pton6 ntop6) h s)) /\
+  (run_h (p_handle_v2 ntop6) h s = after_parse h (handle_v2 ntop6 s) /\
+   called_once h (handle_v2 ntop6 s) (run_h (p_handle_v2 ntop6) h s)) /\
+  (run_h (p_handle_auto pton6 ntop6) h s = after_parse h (handle_auto pton6 ntop6 s) /\
+   called_once h (handle_auto pton6 ntop6 s) (run_h (p_handle_auto pton6 ntop6) h s)).
+Proof.
+  intros pton6 ntop6 h s. repeat split.
+  - apply handle_v1_once.
+  - rewrite handle_v1_once. apply after_parse_once.
+    pose proof (total_v1 pton6 ntop6 s) as T. destruct (fst (handle_v1 pton6 ntop6 s)); cbn in *; tauto.
+  - apply handle_v2_once.
+  - rewrite handle_v2_once. apply after_parse_once. apply total_v2.
+  - apply handle_auto_once.
+  - rewrite handle_auto_once. apply after_parse_once. apply total_auto.
+Qed.
+Print Assumptions C18_handler_called_once.
